@@ -107,6 +107,11 @@ pub fn check(c: &Case2, st: &mut Stats, cfg: &Cfg, bin: &std::path::Path, hv: &s
             }
             st.class("cli triples");
             let l0 = &runs[0];
+            // a program that is slow at level 0 already cannot be judged with a fixed CPU limit on the other levels
+            if l0.raw.wall > Duration::from_millis(1500) {
+                st.exclude("level-0 run slower than 1.5 s (no fixed CPU limit can judge the other levels)");
+                return Ok(());
+            }
             // level 0 must end the way the definition says; otherwise this case cannot serve as a yardstick (C01 reports it)
             let want0 = match m.end {
                 End::Normal | End::Stop(Stop::Exit(0)) => 0,
@@ -169,6 +174,10 @@ pub fn check(c: &Case2, st: &mut Stats, cfg: &Cfg, bin: &std::path::Path, hv: &s
             let l0 = &runs[0];
             if l0.status == proc::Status::Timeout {
                 st.trouble("wall-clock watchdog fired on the level-0 bounded run");
+                return Ok(());
+            }
+            if !matches!(l0.status, proc::Status::Code(_)) || l0.wall > Duration::from_millis(2000) {
+                st.exclude("level-0 bounded run slower than 2 s or killed by its CPU limit (cannot judge the other levels)");
                 return Ok(());
             }
             if !is_prefix_compatible(&l0.stdout, m.out.as_bytes()) {
